@@ -97,6 +97,8 @@ type WalkCfg struct {
 	NoEffects bool
 	// NoInline: keep every call opaque (the error-flow engine reasons per call site)
 	NoInline bool
+	// InlineOnly: with NoInline, the helpers that are inlined all the same (a helper that receives all results of the call under analysis)
+	InlineOnly func(f *ssa.Function) bool
 	// Bind: values known before the walk starts (the parameters of a helper bound to its call site's arguments)
 	Bind map[ssa.Value]AV
 }
@@ -470,7 +472,10 @@ func (w *walker) shouldInline(s *wstate, call *ssa.Call) bool {
 // reached the call as a value (through a helper's parameter, a captured variable or a read-only dispatch table).
 func (w *walker) inlineTarget(s *wstate, call *ssa.Call) (*ssa.Function, *Term) {
 	cc := call.Common()
-	if w.cfg.NoInline || cc.IsInvoke() || len(w.stack) >= 3 {
+	if cc.IsInvoke() || len(w.stack) >= 3 {
+		return nil, nil
+	}
+	if w.cfg.NoInline && !(w.cfg.InlineOnly != nil && cc.StaticCallee() != nil && w.cfg.InlineOnly(cc.StaticCallee())) {
 		return nil, nil
 	}
 	var cal *ssa.Function
